@@ -51,8 +51,26 @@ theorem uninterrupted_all (sys : Sys S) (hl : Lawful sys) (s0 : S) (total : Nat)
 
 /-! non-vacuity: the driver's concrete system is lawful; a reachable directory with marker 0 and a half-written sample -/
 theorem natSys_lawful (n : Nat) (hn : 0 < n) : Lawful (natSys n) :=
-  ⟨hn, fun s => by simp [natSys], fun _ => by simp [natSys], fun _ => by simp [natSys], by simp [natSys],
-   fun i => by simp [natSys]⟩
+  ⟨hn, fun s => by simp [natSys], fun s h => by simp [natSys] at h, fun _ => by simp [natSys], fun _ => by simp [natSys],
+   by simp [natSys], fun i => by simp [natSys]⟩
+
+/-- MAP runs (n_samples = 0: `SampleList`, one sample file, no mean file; a stale mean file is unlinked) are instances of the
+    same theorems: the MAP system is lawful, so `crash_safe_all` / `crash_safe_latest` apply to it -/
+theorem natSys_map_lawful : Lawful (natSys 1 false) :=
+  ⟨by decide, fun s => by simp [natSys], fun _ _ => rfl, fun _ => by simp [natSys], fun _ => by simp [natSys],
+   by simp [natSys], fun i => by simp [natSys]⟩
+
+def mapCrash (k : Nat) : FS Path := crash FS.empty (run (natSys 1 false) .repaired .latest false 3 0 FS.empty).1 k
+def mapOutcome (k : Nat) : Option Nat :=
+  match (run (natSys 1 false) .repaired .latest true 3 0 (mapCrash k)).2 with
+  | .ok s => some s
+  | .error _ => none
+
+/-- a MAP run with strategy `latest`, killed after the sample of iteration 1 has been moved into place but before the
+    marker is written again: no marker (invalidated), no mean file, sample of iteration 1 — the resumed run starts from
+    scratch and returns state 3 -/
+example : mapCrash 60 .marker = none ∧ mapCrash 60 (.mean .latest) = none ∧
+    mapCrash 60 (.sample .latest 0) = some [2, 0, 255] ∧ mapOutcome 60 = some 3 := by decide
 
 def natRun (proto : Proto) (strat : Strategy) (resume : Bool) (total : Nat) (fs : FS Path) :=
   run (natSys 2) proto strat resume total 0 fs
